@@ -21,6 +21,7 @@ class MemoryPoolList {
   };
 
   static_assert(sizeof(FreeSlot) <= sizeof(T), "T is too small");
+  ARDUINOJSON_VERIF_FRIEND
 
  public:
   using Pool = MemoryPool<T>;
@@ -60,6 +61,7 @@ class MemoryPoolList {
     swap_(a.count_, b.count_);
     swap_(a.capacity_, b.capacity_);
     swap_(a.freeList_, b.freeList_);
+    ARDUINOJSON_VERIF_EVENT(8, &a, &b, 0);
   }
 
   MemoryPoolList& operator=(MemoryPoolList&& src) {
@@ -76,6 +78,7 @@ class MemoryPoolList {
     capacity_ = src.capacity_;
     src.count_ = 0;
     src.capacity_ = 0;
+    ARDUINOJSON_VERIF_EVENT(9, this, &src, 0);
     return *this;
   }
 
@@ -101,6 +104,7 @@ class MemoryPoolList {
   }
 
   void freeSlot(Slot<T> slot) {
+    ARDUINOJSON_VERIF_EVENT(5, this, slot.id(), 0);
     reinterpret_cast<FreeSlot*>(slot.ptr())->next = freeList_;
     freeList_ = slot.id();
   }
@@ -124,6 +128,7 @@ class MemoryPoolList {
       pools_ = preallocatedPools_;
       capacity_ = ARDUINOJSON_INITIAL_POOL_COUNT;
     }
+    ARDUINOJSON_VERIF_EVENT(6, this, 0, 0);
   }
 
   SlotCount usage() const {
@@ -146,6 +151,7 @@ class MemoryPoolList {
       ARDUINOJSON_ASSERT(pools_ != nullptr);  // realloc to smaller can't fail
       capacity_ = count_;
     }
+    ARDUINOJSON_VERIF_EVENT(7, this, count_, capacity_);
   }
 
  private:
@@ -154,6 +160,7 @@ class MemoryPoolList {
     auto id = freeList_;
     auto slot = getSlot(freeList_);
     freeList_ = reinterpret_cast<FreeSlot*>(slot)->next;
+    ARDUINOJSON_VERIF_EVENT(1, this, id, 0);
     return {slot, id};
   }
 
@@ -163,6 +170,8 @@ class MemoryPoolList {
     auto slot = pools_[poolIndex].allocSlot();
     if (!slot)
       return {};
+    ARDUINOJSON_VERIF_EVENT(
+        2, this, SlotId(poolIndex * ARDUINOJSON_POOL_CAPACITY + slot.id()), 0);
     return {slot.ptr(),
             SlotId(poolIndex * ARDUINOJSON_POOL_CAPACITY + slot.id())};
   }
@@ -175,6 +184,7 @@ class MemoryPoolList {
     if (count_ == maxPools)  // last pool is smaller because of NULL_SLOT
       poolCapacity--;
     pool->create(poolCapacity, allocator);
+    ARDUINOJSON_VERIF_EVENT(3, this, count_, poolCapacity);
     return pool;
   }
 
@@ -197,6 +207,7 @@ class MemoryPoolList {
 
     pools_ = static_cast<Pool*>(newPools);
     capacity_ = newCapacity;
+    ARDUINOJSON_VERIF_EVENT(4, this, newCapacity, 0);
     return true;
   }
 
